@@ -146,6 +146,16 @@ def run_case(case):
         doc = fields.pack_doc(case["cases"])
         label = "fields|" + ";".join(fields.describe(c) for c in case["cases"])
         r = check_project(doc)
+    elif k == "tag":
+        doc = c01.tag_doc(case["tag"])
+        label = f"tag|{case['tag']!r}"
+        r = check_project(doc)
+    elif k == "union":
+        from . import c14
+
+        doc = c14.build_doc([case["union"]])
+        label = "union|" + c14.describe(case["union"])
+        r = check_project(doc)
     elif k == "oppack":
         doc = ops.build_doc(case["cases"])[0]
         label = "ops|" + ";".join(ops.describe(c) for c in case["cases"])
